@@ -381,6 +381,11 @@ public:
     {
         const auto backup_file = backup_name(file_path);
 
+        // Only a file has a backup. What else may be written to (with -o: a device, or a directory which
+        // the write is going to fail for) stays where it is.
+        if (filesystem::exists(file_path) && !filesystem::is_regular_file(file_path))
+            return;
+
         // Per POSIX:
         // > if multiple patches are applied to the same file, the .orig file will be written only for the first patch
         if (m_backed_up_files.emplace(backup_file).second) {
